@@ -52,6 +52,12 @@ struct St {
     taken: Vec<usize>,
     case_idx: usize,
     armed: bool,
+    // PCT-style fallback: thread priorities + priority-change points
+    pct: bool,
+    prio: Vec<i64>,
+    change: Vec<usize>,
+    picks: usize,
+    low: i64,
 }
 
 struct Sched {
@@ -111,6 +117,24 @@ impl St {
                 return Some(t);
             }
         }
+        if self.pct && self.armed {
+            // highest priority enabled thread runs; at a change point the
+            // thread that would run is demoted below everybody else
+            while self.prio.len() < self.th.len() {
+                self.rng ^= self.rng << 13;
+                self.rng ^= self.rng >> 7;
+                self.rng ^= self.rng << 17;
+                self.prio.push((self.rng % 1000) as i64 + 1);
+            }
+            self.picks += 1;
+            let mut best = *en.iter().max_by_key(|t| self.prio[**t]).unwrap();
+            if self.change.contains(&self.picks) {
+                self.low -= 1;
+                self.prio[best] = self.low;
+                best = *en.iter().max_by_key(|t| self.prio[**t]).unwrap();
+            }
+            return Some(best);
+        }
         if self.rand_fallback {
             self.rng ^= self.rng << 13;
             self.rng ^= self.rng >> 7;
@@ -148,6 +172,11 @@ impl Sched {
                 taken: vec![],
                 case_idx: 0,
                 armed: false,
+                pct: false,
+                prio: vec![],
+                change: vec![],
+                picks: 0,
+                low: 0,
             }),
             cv: Condvar::new(),
         })
@@ -572,6 +601,14 @@ fn run_case(sched: &Arc<Sched>, case: &Value, idx: usize) {
         st.pos = 0;
         st.rng = case["seed"].as_u64().unwrap_or(1).wrapping_mul(0x9E3779B97F4A7C15) | 1;
         st.rand_fallback = case["fallback"].as_str() == Some("rand");
+        st.pct = case["fallback"].as_str() == Some("pct");
+        st.prio.clear();
+        st.picks = 0;
+        st.low = 0;
+        st.change = case["change"]
+            .as_array()
+            .map(|a| a.iter().map(|v| v.as_u64().unwrap() as usize).collect())
+            .unwrap_or_default();
         st.owner.clear();
         st.steps = 0;
         st.locs.clear();
@@ -604,6 +641,9 @@ fn run_case(sched: &Arc<Sched>, case: &Value, idx: usize) {
         ms.stk.as_mut().unwrap().set_poll_waker(move || {
             sc.hi(r#""e":"pollwaker""#.to_string());
             NOTIFIED.store(true, Ordering::SeqCst);
+            // the I/O poller's wake-up call is a scheduling point of its own:
+            // the main thread may react before wake() has returned
+            sc.yield_want(Want::Step);
         });
     }
     let empty = vec![];
@@ -649,6 +689,13 @@ fn run_case(sched: &Arc<Sched>, case: &Value, idx: usize) {
             std::mem::forget(fillers);
         }
         "channel" => {
+            let nf = case["fillers"].as_u64().unwrap_or(0);
+            let s = ms.stk.as_mut().unwrap();
+            let mut fillers = Vec::new();
+            for _ in 0..nf {
+                fillers.push(s.waker(|_, _| {}));
+            }
+            std::mem::forget(fillers);
             let sc = sched.clone();
             let fwd = Fwd::new(move |v: i64| {
                 sc.hi(format!(r#""e":"fwd","v":{}"#, v));
@@ -660,6 +707,15 @@ fn run_case(sched: &Arc<Sched>, case: &Value, idx: usize) {
             sched.hi(r#""e":"setup_channel""#.to_string());
         }
         "piped" => {
+            let nf = case["fillers"].as_u64().unwrap_or(0);
+            {
+                let s = ms.stk.as_mut().unwrap();
+                let mut fillers = Vec::new();
+                for _ in 0..nf {
+                    fillers.push(s.waker(|_, _| {}));
+                }
+                std::mem::forget(fillers);
+            }
             let sc1 = sched.clone();
             let sc2 = sched.clone();
             let fwd_recv = Fwd::new(move |v: i64| {
